@@ -398,6 +398,7 @@ func genC10(g *Rng, tier string, emit func(Op)) {
 		}
 		emit(b.op(kp, nu0, "witness-meets-altered-events"))
 		emit(chosenEventValuesOp(g, kp))
+		prependedChunkOps(g, kp, 4, emit)
 	}
 	maxLen, ndouble := 4, 30
 	if tier == "thorough" {
